@@ -45,6 +45,9 @@ var modTextHarness = boundedHarness{prop: "C08", subject: "gts.AsModifier", pos:
 var cliHarness = boundedHarness{prop: "C15", subject: "main.commands", pos: "cmd/gts", file: "cli_bounded_test.go", pkgDir: "cmd/gts", test: "TestVerifBoundedCLI",
 	clauses: []string{"delete-removes-union", "delete-removes-union-e", "insert-once-per-site", "insert-once-per-site-e", "infix-once-per-site", "rotate-first-site-to-zero", "split-pieces-tile-input", "extract-each-site-once-in-order", "extract-v-unlocated-stretches"}}
 
+var fastaHarness = boundedHarness{prop: "C17", subject: "seqio.FastaParser", pos: "seqio/fasta.go", file: "fasta_bounded_test.go", pkgDir: "seqio", test: "TestVerifBoundedFasta",
+	clauses: []string{"fasta-writes", "layout-70-columns", "roundtrip-lf", "roundtrip-crlf", "genbank-to-fasta"}}
+
 func (e *Engine) runBounded(h boundedHarness, repo, verif, tier string, seed int) ([]*Obligation, map[string]interface{}) {
 	info := map[string]interface{}{}
 	src := filepath.Join(verif, "bounded", h.file)
